@@ -9,7 +9,7 @@ ID = "C08"
 LEVEL = "exploration"
 TECHNIQUE = "exhaustive enumeration of sense buffers (response codes x valid bit x sense keys x all 65536 ASC/ASCQ pairs x all lengths 1..252 x filler bytes); construction, str(), print() and print_data must not raise and key/ASC/ASCQ are compared with SPC's positions extracted by the independent bit oracle"
 RULE = ("quick: all 65536 ASC/ASCQ pairs x response codes {70h,72h} (key 5) + {71h,73h} (key 6); 16 keys x 9 response codes {70-73,00,6F,74,7E,7F} "
-        "x valid bit x 64 ASC/ASCQ pairs; every length 1..252 x 9 response codes x filler {00,FF} x ADDITIONAL SENSE LENGTH {exact n-7, 0, FFh} with and without print_data; descriptor format x 16 keys x sense data descriptors of 18 types x 7 ADDITIONAL LENGTH values x 4 contents (incl. nested sense data) singly and in pairs; every byte position of the minimal buffer x 256 values x 16 keys; all ordered pairs and triples of 12 sense buffers built in sequence and kept alive, each compared afterwards with what it reports alone; "
+        "x valid bit x 64 ASC/ASCQ pairs; every length 1..252 x 9 response codes x filler {00,FF} x ADDITIONAL SENSE LENGTH {exact n-7, 0, FFh} with and without print_data; descriptor format x 16 keys x sense data descriptors of 18 types x 7 ADDITIONAL LENGTH values x 4 contents (incl. nested sense data) singly and in pairs; every byte position of the minimal buffer x 256 values x 16 keys; through the real device classes on both transports: every sequence of 1-3 CHECK CONDITIONs, each with its own sense data, over fresh commands and over one command object submitted again (the error describes the sense data of that execution); all ordered pairs and triples of 12 sense buffers built in sequence and kept alive, each compared afterwards with what it reports alone; "
         "thorough: the full product 9 codes x 2 valid x 16 keys x 65536 pairs. Non-trivial = anything other than the all-zero 18-byte fixed "
         "buffer; distinct = distinct buffers (x print flag).")
 ASSUMPTIONS = [
@@ -77,7 +77,16 @@ def expected(buf):
     return None
 
 
+def run_device(case):
+    from vf.props import c07
+    _, mode, tr, steps = case
+    v = c07.run_case([mode, tr, [tuple(x) for x in steps]])
+    return [("device/" + k.split("/", 1)[1], w) for k, w in v if "sense" in k or "error_changed" in k or "raises" in k]
+
+
 def run_case(case, obs=None):
+    if case[0] == "device":
+        return run_device(case)
     from pyscsi.pyscsi.scsi_sense import SCSICheckCondition
     if case[0] == "seq":
         return run_sequence(case[1])
@@ -174,6 +183,7 @@ def partitions(tier):
     parts += [["sequences", i] for i in range(len(SEQ_ALPHA))]
     parts += [["descriptors", c, k] for c in (0x72, 0x73) for k in range(16)]
     parts += [["bytes", c] for c in (0x70, 0x71, 0x72, 0x73)]
+    parts += [["device", tr] for tr in ("sgio", "iscsi")]
     if bounds(tier)["full_product"]:
         parts += [["full", c, v, k] for c in CODES for v in (0, 1) for k in range(16)]
     return parts
@@ -196,6 +206,27 @@ def run_partition(part, tier, seed):
         acc.outcome((obs[0][0] if obs else None, tuple(k for k, _ in v)))
 
     kind = part[0]
+    if kind == "device":
+        # the error raised for an execution describes the sense data of THAT execution: one command object per kind submitted again
+        # and again (a retry loop), every CHECK CONDITION with its own sense data, alternating fixed / descriptor format
+        import itertools
+
+        from vf.props import c07
+        tr = part[1]
+        for n in (1, 2, 3):
+            for cks in itertools.product(("tur", "read10", "inquiry"), repeat=n):
+                for mode in ("rehist", "hist"):
+                    case = ["device", mode, tr, [[c, "CC"] for c in cks]]
+                    acc.case(case, nontrivial=True, key=repr(case))
+                    try:
+                        v = run_case(case)
+                    except Exception:
+                        import traceback
+                        v = [("harness_error", traceback.format_exc()[-500:])]
+                    for k, w in v:
+                        acc.violation(k, w, case)
+                    acc.outcome((repr(case), tuple(k for k, _ in v)))
+        return acc
     if kind == "sequences":
         import itertools
         first = part[1]
